@@ -148,6 +148,11 @@ def run(ctx):
             ok = len(cl) == 1 and 'closure' in cl[0]['rv'] and all(o['k'] == 'move' and not o['place']['p'] for o in cl[0]['rv']['ops'])
             tys = sorted(o['place']['ty'] for o in cl[0]['rv']['ops']) if ok else []
             ok = ok and sum(1 for t in tys if t.startswith('crossbeam_channel::Receiver<')) == 2 and any('dyn source::Source' in t for t in tys)
+            ok = ok and not any('Sender<hot_reloading::CacheMessage>' in t_ for t_ in tys)
             R4.check(ok, cfg, sb.path, 'thread-owns-receivers-and-source', 'the thread closure must own both receivers and the boxed source by move; captures %s' % tys, sp[0].loc())
+        # the cache is the only holder of the message sender: a clone kept elsewhere (e.g. by the thread itself)
+        # would keep the channel connected after the cache is gone
+        clones = [c for c in F.calls_to(r'Clone>::clone$') if c.callee and 'Sender<hot_reloading::CacheMessage>' in (c.callee.self_ty or '') + ' '.join(c.callee.args or [])]
+        R4.check(not clones, cfg, 'hot_reloading::HotReloader.sender', 'message-sender-never-cloned', 'Sender<CacheMessage> is cloned in %s' % sorted({c.body.path for c in clones}))
         for r in (R1, R2, R3, R4):
             r.finish_cfg(cfg)
